@@ -31,7 +31,7 @@ func init() {
 	})
 }
 
-var c05shapes = []string{"burst", "rename-then-delete", "rename-then-rmdir", "delete-dir-with-contents", "many-watches", "overflow", "rename-delete-many"}
+var c05shapes = []string{"burst", "rename-then-delete", "rename-then-rmdir", "delete-dir-with-contents", "many-watches", "overflow", "rename-delete-many", "moves-in-out-within"}
 var c05consumers = []string{"both", "only-events", "only-errors", "neither", "stops-after-k"}
 
 func runC05(c *core.Ctx) {
@@ -222,6 +222,24 @@ func c05Case(c *core.Ctx, rng *rand.Rand, dir string, idx int, a *apiTrack, st *
 			os.Rename(p, p+"~")
 			os.Remove(p + "~")
 		}
+	case "moves-in-out-within":
+		// unmatched halves of moves (in from / out to an unwatched place) mixed with matched ones:
+		// the rename bookkeeping runs while the reader holds the Watcher's lock
+		un := filepath.Join(base, "unwatched")
+		os.Mkdir(un, 0o755)
+		for k := 0; k < 6+rng.Intn(20); k++ {
+			a := filepath.Join(un, fmt.Sprint("x", k))
+			os.WriteFile(a, nil, 0o644)
+			b := filepath.Join(d, fmt.Sprint("in", k))
+			os.Rename(a, b) // move in: IN_MOVED_TO without a matching IN_MOVED_FROM
+			switch rng.Intn(3) {
+			case 0:
+				os.Rename(b, filepath.Join(d, fmt.Sprint("w", k))) // within
+			case 1:
+				os.Rename(b, filepath.Join(un, fmt.Sprint("out", k))) // out: unmatched IN_MOVED_FROM
+			}
+		}
+		time.Sleep(time.Duration(rng.Intn(3)) * time.Millisecond)
 	case "delete-dir-with-contents":
 		for k := 0; k < 30; k++ {
 			os.WriteFile(filepath.Join(sub, fmt.Sprint("c", k)), nil, 0o644)
